@@ -10,8 +10,10 @@ def sh(c, cwd=None):
 corpus = collections.defaultdict(list)
 for f in glob.glob("/verif/corpus/*.ops"):
     corpus[os.path.basename(f)[:-4]] = [l.rstrip("\n") for l in open(f) if l.strip()]
+only = sys.argv[1:]          # optional id prefixes: add the failing inputs of these seeded changes only
 for d in sorted(glob.glob("/verif/seeded/S*")):
     m = json.load(open(d + "/meta.json"))
+    if only and not any(m["id"].startswith(o) for o in only): continue
     target = re.findall(r"C\d\d", m["breaks"])[0]
     if target == "C20": continue
     if sh(f"git -C /repo apply {d}/patch.diff").strip():
